@@ -1,5 +1,5 @@
 (* Model driver for the zsh area (C16/C17): the byte-exact model of clap_complete's zsh generator.
-   (aot zsh BIN (cmd NAME item...))   -> (script x<hex>) | PANIC | OUTOFFUEL        (spec format of the aot area + (help x..) / (about x..) / (cx xID ..))
+   (aot zsh BIN (cmd NAME item...))   -> (script x<hex>) | PANIC | OUTOFFUEL        (spec format of the aot area + (help x..) / (about x..))
    (script zsh (cmd NAME item...))    -> (adv x<hex>) (inn x<hex>) (nodq x<hex>)     (spec format of the aottext area)
    any other shell                     -> other-shell *)
 open Conv
@@ -18,13 +18,14 @@ let hint_of = function
   | "EmailAddress" -> AotTree.HEmailAddress
   | h -> failwith ("unknown hint " ^ h)
 
-(* an argument of the aot spec: the tree part, its texts ((help x..)), its blacklist ((cx xID ...) = conflicts_with_all) *)
-let build_arg (items : Sx.t list) : AotTree.arg * FishModel.adesc * BinNums.coq_N list list =
+(* an argument of the aot spec: the tree part (incl. value names, terminator, last, blacklist, groups) and its texts ((help x..)) *)
+let build_arg (items : Sx.t list) : AotTree.arg * FishModel.adesc =
   let id = bytes_of (Stdlib.List.hd items) in
   let short = ref None and long = ref None and sa = ref [] and la = ref [] in
   let act = ref AotTree.ASet and num = ref None and pvs = ref [] and has_pvs = ref false in
   let hint = ref None and glob = ref false and hide = ref false and req = ref false in
-  let help = ref None and cx = ref [] in
+  let x_vn = ref [] and x_term = ref None and x_last = ref false and x_cx = ref [] and x_grp = ref [] in
+  let help = ref None in
   Stdlib.List.iter (fun it ->
     let l = Sx.args it in
     match Sx.head it with
@@ -47,23 +48,22 @@ let build_arg (items : Sx.t list) : AotTree.arg * FishModel.adesc * BinNums.coq_
     | "global" -> glob := true
     | "hide" -> hide := true
     | "required" -> req := true
-    | "cx" -> cx := !cx @ Stdlib.List.map bytes_of l       (* conflicts_with_all: ids in the order given *)
+    | "vn" -> x_vn := !x_vn @ Stdlib.List.map bytes_of l        (* value_names *)
+    | "term" -> x_term := Some (bytes_of (Stdlib.List.hd l))                 (* value_terminator *)
+    | "last" -> x_last := true
+    | "cx" -> x_cx := !x_cx @ Stdlib.List.map bytes_of l        (* conflicts_with_all: ids in the order given *)
+    | "grp" -> x_grp := !x_grp @ Stdlib.List.map bytes_of l     (* groups(..) *)
     | "help" -> help := Some (bytes_of (Stdlib.List.hd l))
     | h -> failwith ("unknown arg item " ^ h)) (Stdlib.List.tl items);
   ({ AotTree.a_id = id; a_short = !short; a_long = !long;
      a_short_aliases = Stdlib.List.rev !sa; a_aliases = Stdlib.List.rev !la;
      a_action = !act; a_num = !num;
      a_pvs = (if !has_pvs then Some (Stdlib.List.rev !pvs) else None);
-     a_hint = !hint; a_global = !glob; a_hide = !hide; a_required = !req },
-   { FishModel.ad_help = !help; ad_long = false; ad_pvh = [] },
-   !cx)
+     a_hint = !hint; a_global = !glob; a_hide = !hide; a_required = !req;
+    a_value_names = !x_vn; a_terminator = !x_term; a_last = !x_last; a_blacklist = !x_cx; a_groups = !x_grp },
+   { FishModel.ad_help = !help; ad_long = false; ad_pvh = [] })
 
-(* the blacklist table of a spec: per command (keyed by the bin name [_build_bin_names_internal] will give it) the
-   bin name of its parent and, per argument id, (is it global, its blacklist) *)
-type conf_node = { parent : BinNums.coq_N list option; cargs : (BinNums.coq_N list * (bool * BinNums.coq_N list list)) list }
-let conf_table : (BinNums.coq_N list, conf_node) Hashtbl.t = Hashtbl.create 16
-
-let rec build_cmd (self_bin : BinNums.coq_N list) (parent_bin : BinNums.coq_N list option) (items : Sx.t list) : AotTree.cmd * FishModel.cdesc =
+let rec build_cmd (items : Sx.t list) : AotTree.cmd * FishModel.cdesc =
   let name = bytes_of (Stdlib.List.hd items) in
   let al = ref [] and args = ref [] and subs = ref [] and hide = ref false and version = ref false in
   let dhf = ref false and dvf = ref false and dhs = ref false and pver = ref false and about = ref None in
@@ -80,50 +80,26 @@ let rec build_cmd (self_bin : BinNums.coq_N list) (parent_bin : BinNums.coq_N li
     | "no-help-sub" -> dhs := true
     | "about" -> about := Some (bytes_of (Stdlib.List.hd l))
     | "arg" -> args := build_arg l :: !args
-    | "cmd" ->
-      let sub_name = bytes_of (Stdlib.List.hd l) in
-      let sub_bin = self_bin @ (if self_bin = [] then [] else bytes_of_string " ") @ sub_name in
-      subs := build_cmd sub_bin (Some self_bin) l :: !subs
+    | "cmd" -> subs := build_cmd l :: !subs
     | h -> failwith ("unknown cmd item " ^ h)) (Stdlib.List.tl items);
   let args = Stdlib.List.rev !args and subs = Stdlib.List.rev !subs in
-  if not (Hashtbl.mem conf_table self_bin) then
-    Hashtbl.add conf_table self_bin
-      { parent = parent_bin;
-        cargs = Stdlib.List.map (fun (a, _, cx) -> (a.AotTree.a_id, (a.AotTree.a_global, cx))) args };
   let st = { AotTree.s_dhf = !dhf; s_dvf = !dvf; s_dhs = !dhs; s_pver = !pver } in
-  ({ AotTree.c_name = name; c_aliases = Stdlib.List.rev !al; c_args = Stdlib.List.map (fun (a, _, _) -> a) args;
+  ({ AotTree.c_name = name; c_aliases = Stdlib.List.rev !al; c_args = Stdlib.List.map fst args;
      c_subs = Stdlib.List.map fst subs; c_bin = None; c_hide = !hide; c_version = !version;
      c_set = st; c_gset = st },
-   { FishModel.cd_about = !about; cd_long = false; cd_args = Stdlib.List.map (fun (_, d, _) -> d) args;
+   { FishModel.cd_about = !about; cd_long = false; cd_args = Stdlib.List.map snd args;
      cd_subs = Stdlib.List.map snd subs })
-
-(* [Arg::blacklist] of the argument [a] of the built command [c]: the entry of the command itself, or -- for a global
-   argument that [_propagate_global_args] copied down -- of the nearest ancestor that declares it *)
-let blacklist (c : AotTree.cmd) (a : AotTree.arg) : BinNums.coq_N list list =
-  let id = a.AotTree.a_id in
-  let rec up (bin : BinNums.coq_N list) (self : bool) =
-    match Hashtbl.find_opt conf_table bin with
-    | None -> []
-    | Some n ->
-      (match Stdlib.List.assoc_opt id n.cargs with
-       | Some (glob, cx) -> if self || glob then cx else []
-       | None -> (match n.parent with Some p -> up p false | None -> []))
-  in
-  match c.AotTree.c_bin with Some b -> up b true | None -> []
-
-let no_blacklist (_ : AotTree.cmd) (_ : AotTree.arg) : BinNums.coq_N list list = []
 
 let run_aot (a : Sx.t list) : string =
   match a with
   | shell :: bin :: spec :: _ ->
     if Sx.sym shell <> "zsh" then "other-shell" else
     let bin = bytes_of bin in
-    Hashtbl.reset conf_table;
-    let (c, d) = build_cmd bin None (Sx.args spec) in
+    let (c, d) = build_cmd (Sx.args spec) in
     (match AotTree.build (AotTree.set_bin_name c bin) with
      | None -> "OUTOFFUEL"
      | Some _ ->
-       (match ZshModel.generate_zsh blacklist c d bin with
+       (match ZshModel.generate_zsh c d bin with
         | Some s -> "(script " ^ hex s ^ ")"
         | None -> "PANIC"))
   | _ -> "badcase"
@@ -154,6 +130,7 @@ let build_arg2 (spec : Sx.t) : AotTree.arg * FishModel.adesc =
   let takes = ref false and multi = ref false and count = ref false in
   let pvs = ref [] and pvh = ref [] and hint = ref None in
   let glob = ref false and hide = ref false and req = ref false in
+  let x_vn = ref [] and x_term = ref None and x_last = ref false and x_cx = ref [] and x_grp = ref [] in
   let help = ref None and long_help = ref false in
   Stdlib.List.iter (fun it ->
     let v = Sx.args it in
@@ -169,7 +146,7 @@ let build_arg2 (spec : Sx.t) : AotTree.arg * FishModel.adesc =
     | "count" -> count := true
     | "global" -> glob := true
     | "req" -> req := true
-    | "last" -> ()
+    | "last" -> x_last := true
     | "hide" -> hide := true
     | "hint" -> hint := Some (hint2 (Sx.sym (Stdlib.List.hd v)))
     | "pv" | "pvhide" ->
@@ -186,7 +163,8 @@ let build_arg2 (spec : Sx.t) : AotTree.arg * FishModel.adesc =
      a_short_aliases = Stdlib.List.rev !sa; a_aliases = Stdlib.List.rev !la;
      a_action = action; a_num = num;
      a_pvs = (if !pvs = [] then None else Some (Stdlib.List.rev !pvs));
-     a_hint = !hint; a_global = !glob; a_hide = !hide; a_required = !req },
+     a_hint = !hint; a_global = !glob; a_hide = !hide; a_required = !req;
+    a_value_names = !x_vn; a_terminator = !x_term; a_last = !x_last; a_blacklist = !x_cx; a_groups = !x_grp },
    { FishModel.ad_help = !help; ad_long = !long_help; ad_pvh = Stdlib.List.rev !pvh })
 
 let rec build_cmd2 (spec : Sx.t) : AotTree.cmd * FishModel.cdesc =
@@ -232,7 +210,7 @@ let run_script (a : Sx.t list) : string =
     if Sx.sym shell <> "zsh" then "other-shell" else
     let (c, d) = build_cmd2 spec in
     let bin = c.AotTree.c_name in
-    let gen d = match ZshModel.generate_zsh no_blacklist c d bin with Some s -> hex s | None -> "PANIC" in
+    let gen d = match ZshModel.generate_zsh c d bin with Some s -> hex s | None -> "PANIC" in
     "(adv " ^ gen d ^ ") (inn " ^ gen (FishModel.innocuous_desc d) ^ ") (nodq " ^ gen (nodq_desc d) ^ ")"
   | _ -> "badcase"
 
